@@ -81,7 +81,7 @@ fn check_rejected(res: ohkami::Response) {
     std::mem::forget(res);
 }
 
-// @verif prop=C13 tier=quick mem=20 timeout=1200 bounds="BasicAuth{u,p}; Authorization = `Basic ` + 4 symbolic ASCII characters"
+// @verif prop=C13 tier=quick mem=12 timeout=1200 bounds="BasicAuth{u,p}; Authorization = `Basic ` + 4 symbolic ASCII characters"
 #[kani::proof]
 #[kani::stub(ohkami::util::base64_decode_utf8, base64_decode_utf8_model)]
 #[kani::stub(ohkami::util::unix_timestamp, stubs::unix_timestamp_zero)]
@@ -103,7 +103,7 @@ fn c13_single_pair() {
     std::mem::forget(req);
 }
 
-// @verif prop=C13 tier=quick mem=20 timeout=1200 bounds="[BasicAuth{u,p}, BasicAuth{v,q}]; Authorization = `Basic ` + 4 symbolic ASCII characters"
+// @verif prop=C13 tier=quick mem=12 timeout=1200 bounds="[BasicAuth{u,p}, BasicAuth{v,q}]; Authorization = `Basic ` + 4 symbolic ASCII characters"
 #[kani::proof]
 #[kani::stub(ohkami::util::base64_decode_utf8, base64_decode_utf8_model)]
 #[kani::stub(ohkami::util::unix_timestamp, stubs::unix_timestamp_zero)]
@@ -124,7 +124,7 @@ fn c13_two_pairs() {
     std::mem::forget(req);
 }
 
-// @verif prop=C13 tier=quick mem=20 timeout=1200 bounds="BasicAuth{'',x} and colon in password {a,':'}; 4 symbolic characters"
+// @verif prop=C13 tier=quick mem=12 timeout=1200 bounds="BasicAuth{'',x} and colon in password {a,':'}; 4 symbolic characters"
 #[kani::proof]
 #[kani::stub(ohkami::util::base64_decode_utf8, base64_decode_utf8_model)]
 #[kani::stub(ohkami::util::unix_timestamp, stubs::unix_timestamp_zero)]
@@ -148,7 +148,7 @@ fn c13_empty_user_and_colon_password() {
     std::mem::forget(req);
 }
 
-// @verif prop=C13 tier=quick mem=20 timeout=1200 bounds="other scheme prefixes (6 symbolic bytes) and a missing header: always 401"
+// @verif prop=C13 tier=quick mem=12 timeout=1200 bounds="other scheme prefixes (6 symbolic bytes) and a missing header: always 401"
 #[kani::proof]
 #[kani::stub(ohkami::util::base64_decode_utf8, base64_decode_utf8_model)]
 #[kani::stub(ohkami::util::unix_timestamp, stubs::unix_timestamp_zero)]
